@@ -622,11 +622,13 @@ class _SetOperation(Selectable, Term):  # type:ignore[misc]
 
         # an operand's own alias defines no name inside the set operation
         set_ctx = ctx.copy(subquery=self.base_query.wrap_set_operation_queries, with_alias=False)
-        base_querystring = self.base_query.get_sql(set_ctx)
+        base_querystring = self.base_query.get_sql(self._operand_ctx(self.base_query, set_ctx))
 
         querystring = base_querystring
         for set_operation, set_operation_query in self._set_operation:
-            set_operation_querystring = set_operation_query.get_sql(set_ctx)
+            set_operation_querystring = set_operation_query.get_sql(
+                self._operand_ctx(set_operation_query, set_ctx)
+            )
 
             if len(self.base_query._selects) != len(set_operation_query._selects):
                 raise SetOperationException(
@@ -656,6 +658,19 @@ class _SetOperation(Selectable, Term):  # type:ignore[misc]
             return format_alias_sql(querystring, self.alias, ctx)
 
         return querystring
+
+    @staticmethod
+    def _operand_ctx(operand: Any, set_ctx: SqlContext) -> SqlContext:
+        # An operand with ORDER BY / LIMIT / OFFSET of its own must be bracketed, or those clauses would end the
+        # operand in the middle of the statement. SQLite's grammar has no bracketed operands at all.
+        if set_ctx.subquery or set_ctx.dialect == Dialects.SQLITE:
+            return set_ctx
+        has_tail = (
+            getattr(operand, "_orderbys", None)
+            or getattr(operand, "_limit", None) is not None
+            or getattr(operand, "_offset", None) is not None
+        )
+        return set_ctx.copy(subquery=True) if has_tail else set_ctx
 
     def _orderby_sql(self, ctx: SqlContext) -> str:
         """
